@@ -15,12 +15,18 @@ class Ctx:
     vacuity = collections.Counter()
     def function(self, *a): pass
     def engine_error(self, s): print("ENGINE-ERROR", s)
+import os
 out = []
-for res in c03_pages.check(Ctx(), 10000):
+if os.environ.get("C03PAGES_MASK"):
+    from props import _pagemask
+    KN, parts = _pagemask.KNOWN, ("read_col_mask",)
+else:
+    KN, parts = _pages.KNOWN, ("dictionary_page", "data_page_v1", "data_page_v2", "read_col")
+for res in c03_pages.check(Ctx(), 10000, parts=parts):
     for name in res.order:
         st = res.status(name)
         if st == PROVED: continue
-        known = any(rx.search(name) for f, rx in _pages.KNOWN)
+        known = any(rx.search(name) for f, rx in KN)
         if st == REFUTED and known: continue
         out.append((st, name))
 print("RESULT " + json.dumps(out))
@@ -47,8 +53,13 @@ def run(c):
 
 
 if __name__ == "__main__":
-    cans = json.load(open(os.path.join(V, "canaries", "C03.json")))
     sel = sys.argv[1:]
+    if sel[:1] == ["--c13"]:          # the row-mask run (C13): canaries/C13.json entries named C13-pagemask-*
+        os.environ["C03PAGES_MASK"] = "1"
+        cans = [c for c in json.load(open(os.path.join(V, "canaries", "C13.json"))) if c["name"].startswith("C13-pagemask-")]
+        sel = sel[1:]
+    else:
+        cans = json.load(open(os.path.join(V, "canaries", "C03.json")))
     cans = [c for c in cans if not sel or any(s in c["name"] for s in sel)]
     bad = 0
     with ThreadPoolExecutor(6) as ex:
